@@ -1,5 +1,6 @@
 import Driver.Mon
 import AV.Spec.C20
+import AV.Spec.C06
 open Lean AV AV.Pub
 
 namespace Drv
@@ -415,6 +416,53 @@ def c05 (inp obs : Json) : Res :=
   match (checkSteps obs c05Step) <|> c05History obs with
   | none => { agree := agree, specOk := true, why := why,
               nontrivial := !inconclusive && (stepsOf obs).any fun (_, o) => (libTrace o).any fun e => e.name == "setOutbox" }
+  | some m => { agree := agree, specOk := false, why := m ++ (if agree then "" else " | " ++ why) }
+
+/-! #### C06 -/
+
+open AV.Spec.C06 in
+def c06Step (sin sobs : Json) : Option String :=
+  let evs := libTrace sobs
+  if jstr sin "entry" != "postInbox" then none else
+  if (sobs.getObjVal? "panic").toOption.isSome then none else
+  let body := jget sin "body"
+  if jstr body "k" != "val" then none else
+  let v := J.norm (toJ (jget body "v"))
+  let ty := Val.typeName v
+  -- the block check: asked first, about exactly the actors' ids
+  match monRun (blockMon facts v) false evs with
+  | .error (i, what) => some s!"event {i} ({what}): a side effect before the block check, or the block check was not asked about exactly the ids of the activity's actors"
+  | .ok _ =>
+  let cfgEv := evs.find? fun e => e.name == "fedCallbacks"
+  let defaultRuns := match cfgEv with
+    | some e => !isErr e.resp && !(jIris (jget (jget e.resp "ok") "other")).contains ty
+    | none => false
+  if !defaultRuns then none else
+  let err := jstr sobs "err"
+  let wrote (names : List String) := evs.any fun e => names.contains e.name
+  if (ty == "Update" || ty == "Delete") && !originSpec facts v then
+    (if wrote ["update", "delete", "create", "appCb"] then some s!"{ty} with an object on another host than the activity id was applied"
+     else if err == "nil" && !(evs.any fun e => isErr e.resp) && ((Val.prop facts v "object").getD []).length > 0 then some s!"{ty} with an object on another host was accepted"
+     else none)
+  else if ty == "Accept" then
+    match monRun (acceptMon facts v) {} evs with
+    | .error (i, what) => some s!"event {i} ({what}): the following collection was updated without a stored Follow of this actor that names every accepting actor"
+    | .ok _ => none
+  else if ty == "Undo" then
+    -- the callback phase ends where inbox forwarding starts (its first call is Exists on the activity id)
+    let cbEvs := evs.takeWhile fun e => e.name != "exists"
+    match monRun (undoMon facts v true) {} cbEvs with
+    | .error (i, what) => some s!"event {i} ({what}): the Undo callback ran although an undone activity has an actor that is not an actor of the Undo"
+    | .ok st =>
+      if err == "nil" && !(evs.any fun e => isErr e.resp) && !(st.ok && st.checked == ((Val.prop facts v "object").getD []).length) && (evs.any fun e => e.name == "setInbox")
+      then some "an Undo whose actors do not cover the undone activities' actors was accepted" else none
+  else none
+
+def c06 (inp obs : Json) : Res :=
+  let (agree, why, inconclusive) := replayAll inp obs
+  match checkSteps obs c06Step with
+  | none => { agree := agree, specOk := true, why := why,
+              nontrivial := !inconclusive && (stepsOf obs).any fun (_, o) => (libTrace o).any fun e => e.name == "blocked" }
   | some m => { agree := agree, specOk := false, why := m ++ (if agree then "" else " | " ++ why) }
 
 def pubGeneric (_prop : String) (inp obs : Json) : Res :=
